@@ -44,6 +44,34 @@ CLAIMS = {
              "agreement and the driver's save/restore protocol. Data values are not modelled.",
         technique="typestate extraction from the AST + exhaustive enumeration of the finite abstract state space",
         design="5/C04, 4.3"),
+    "C05": dict(
+        text="Index-space and window typing (abstract interpretation with tags local/global index, layout axis/dimension, "
+             "Local/Global/Prefix window per array axis) of every table look-up, slice selection and kernel argument of the "
+             "grid-level operators (flux-surface, v-parallel and poloidal advection, parallel gradient, density integration, "
+             "per-mode solver, initialisers), with table signatures derived from the constructors and index requirements of "
+             "per-slice routines derived from their own look-ups; plus the driver layout typestate (every grid is in the "
+             "layout its callee asserts at each operator call; restore returns to the saved layout; the loop body is "
+             "layout-invariant). Decides the necessary condition 'each local slice uses the parameters of its own global "
+             "coordinates'; equality of parallel and serial numerical results is not decided.",
+        technique="index-space/window type inference over the AST + layout typestate over the driver's call sequence",
+        design="5/C05, 4.2"),
+    "C11": dict(
+        text="Formula conformance by symbolic forward substitution: per boundary mode the kernel's assignment equals "
+             "ITE(foot outside, fill, S(foot)) resp. S(periodically shifted foot); feet normalise to v_node - c*dt; mode "
+             "code table agrees between constructor and kernel; dispatch and argument roles; interpolate-before-evaluate; "
+             "index-space typing of the grid-level loops (gradient table and radius of the line being advanced). "
+             "Interpolation accuracy is not decided.",
+        technique="symbolic forward substitution to normal forms (sympy as normaliser) + index-space typing",
+        design="5/C11, 4.5"),
+    "C12": dict(
+        text="Formula conformance by symbolic forward substitution of both poloidal kernels: predictor, Heun corrector with "
+             "the out-of-domain zero, boundary fill (null / f_eq at inner radius / f_eq at the foot), implicit fixed-point map "
+             "with clipping and halved factor, convergence measure and loop test, compared as rational functions and "
+             "conditionals (truth table over canonicalised comparisons) with the specification written from the property "
+             "statement; dispatch and 33-argument role agreement at the call sites. Termination, accuracy order and "
+             "rigid-rotation exactness are not decided.",
+        technique="symbolic forward substitution to normal forms (sympy as normaliser) + call-site role agreement",
+        design="5/C12, 4.5"),
     "C06": dict(
         text="Static SPMD collective matching: every collective call site (35 today) and every call chain to it is "
              "shown to be control dependent only on rank-uniform conditions, or to lie in a region whose alternatives "
